@@ -1,6 +1,7 @@
 (* C19 - Escaping and normalisation utilities obey their algebraic laws.
    Statements only; every proof is `exact` of a lemma from proofs/. *)
-Require Import GM.model.Base GM.model.Util GM.model.HtmlDecode GM.model.UtilI GM.proofs.Concrete.
+Require Import GM.model.Base GM.model.Util GM.model.HtmlDecode GM.model.UrlSpec GM.model.UtilI GM.proofs.Concrete.
+Require Import GM.gen.Tables.
 Open Scope N_scope.
 
 (* EscapeHTML output: bytes other than lt gt dquote amp and the four references (so no raw lt gt dquote,
@@ -18,3 +19,35 @@ Print Assumptions C19_escape_html_no_raw.
 Theorem C19_escape_html_roundtrip : forall v, html_decode (EscapeHTML v) = v.
 Proof. exact EscapeHTML_roundtrip. Qed.
 Print Assumptions C19_escape_html_roundtrip.
+
+(* URLEscape, escaping stage (URLEscape v false; with resolveReference the input is first
+   resolved and then goes through the same stage).  Inputs are Go byte slices: every element < 256. *)
+
+(* no space, control, DEL, double-quote or angle-bracket byte *)
+Theorem C19_url_escape_alphabet : forall v, all_bytes v -> forallb url_byte_ok (URLEscapeRaw v) = true.
+Proof. exact URLEscape_alphabet. Qed.
+Print Assumptions C19_url_escape_alphabet.
+
+(* every percent sign is followed by two hexadecimal digits *)
+Theorem C19_url_escape_percent : forall v, all_bytes v -> percent_ok (URLEscapeRaw v) = true.
+Proof. exact URLEscape_percent. Qed.
+Print Assumptions C19_url_escape_percent.
+
+(* an existing %XX triple reached by the scan is kept as it is *)
+Theorem C19_url_escape_keeps_triple : forall f total h1 h2 rest,
+  is_hex h1 = true -> is_hex h2 = true ->
+  url_escape_loop url_escape_table utf8len_table (S f) total (37 :: h1 :: h2 :: rest)
+  = 37 :: h1 :: h2 :: url_escape_loop url_escape_table utf8len_table f total rest.
+Proof. exact URLEscape_keeps_triple. Qed.
+Print Assumptions C19_url_escape_keeps_triple.
+
+(* idempotent *)
+Theorem C19_url_escape_idempotent : forall v, all_bytes v -> URLEscapeRaw (URLEscapeRaw v) = URLEscapeRaw v.
+Proof. exact URLEscape_idempotent. Qed.
+Print Assumptions C19_url_escape_idempotent.
+
+(* pure ASCII for valid UTF-8 input *)
+Theorem C19_url_escape_ascii : forall v, all_bytes v -> valid_utf8 v = true ->
+  Forall (fun b => b < 128) (URLEscapeRaw v).
+Proof. exact URLEscape_ascii. Qed.
+Print Assumptions C19_url_escape_ascii.
